@@ -370,7 +370,9 @@ def inline_local(ix, fl, rf, outer, names):
         if node is None:
             raise AnalysisError('closure %s not found' % ca.args[0])
         g = FuncInfo(outer.module, outer.qualname + '.' + node.name, node, cls=outer.cls, parent=outer)
-        env = dict(zip(g.params(), nargs[1:]))
+        # free variables of the closure read the enclosing function's definitions
+        env = {k_: v_ for k_, v_ in fl.env.items() if isinstance(v_, RF)}
+        env.update(dict(zip(g.params(), nargs[1:])))
         sub = Flow(g, Conv(fl.tab, env, getattr(fl, 'canon', None)))
         sub.run()
         r = sub.of('return')
